@@ -159,6 +159,62 @@ def check_marker_waits_for_children(mod, rep, rid):
     if n == 0:
         raise AnalysisBroken('%s: the store of the notified flag was not found' % rid)
 
+def _check_expiry_via_helper(mod, fn, rep):
+    """see the caller; returns False when the shape is not this one (nothing is reported then)"""
+    dl = [a['id'] for a in fn.args if a['ty'] == 'i64']
+    if len(dl) < 2:
+        return False
+    def stores_expiry(g):
+        return any(j.op == 'store' and util.last_field(util.addr_class(mod, g, j.ops[1])) == 'nsync_note_s_.expiry_time_valid' for j in g.real_insts())
+    found = False
+    inherits = False
+    for c in fn.real_insts():
+        if c.op != 'call' or not c.callee:
+            continue
+        h = mod.func(c.callee)
+        if h is None or h.decl or not h.internal or not (h.file or '').endswith('note.c'):
+            continue
+        # h hands two of its i64 parameters, in order, to a function that stores the expiry (or stores them itself)
+        hp = [a['id'] for a in h.args if a['ty'] == 'i64']
+        passes = stores_expiry(h) or any(j.op == 'call' and j.callee and mod.func(j.callee) is not None and not mod.func(j.callee).decl
+                                         and stores_expiry(mod.func(j.callee)) and len(hp) >= 2 and hp[0] in j.ops and hp[1] in j.ops for j in h.real_insts())
+        if not passes or len(hp) < 2:
+            continue
+        ks = [k for k, a in enumerate(h.args) if a['ty'] == 'i64'][:2]
+        sec, nsec = c.ops[ks[0]], c.ops[ks[1]]
+        # the incoming (seconds, nanoseconds) pairs
+        pairs = []
+        ps, pn = fn.imap.get(sec) if isinstance(sec, str) else None, fn.imap.get(nsec) if isinstance(nsec, str) else None
+        if [sec, nsec] == dl[:2]:
+            pairs = [((sec, nsec), None)]
+        elif ps is not None and pn is not None and ps.op == 'phi' and pn.op == 'phi' and ps.block is pn.block and [b for _, b in ps.ops] == [b for _, b in pn.ops]:
+            pairs = [((v1, v2), b) for (v1, b), (v2, _) in zip(ps.ops, pn.ops)]
+        else:
+            return False
+        found = True
+        for (v1, v2), pb in pairs:
+            if [v1, v2] == dl[:2]:
+                rep.instance('C08.R4', 'expiry := abs_deadline (handed to %s at %s)' % (h.name, c.where())); rep.oblig('C08.R4', True)
+                continue
+            g = time_cmp_guard(fn, fn.bmap[pb].term, ('slt',)) if pb is not None else None
+            ok = g is not None and list(g.ops[0:2]) == [v1, v2] and list(g.ops[2:4]) == dl[:2]
+            if not ok and pb is not None:
+                # the selecting branch may be pb's own terminator
+                t = fn.bmap[pb].term
+                if t.op == 'br' and len(t.x['targets']) == 2 and isinstance(t.ops[0], str) and t.ops[0] in fn.imap:
+                    n_ = _norm_cmp(fn, fn.imap[t.ops[0]], t.x['targets'][0] == ps.block.id)
+                    ci = fn.imap.get(n_[1]) if n_ and isinstance(n_[1], str) else None
+                    ok = bool(n_) and n_[0] == 'slt' and IR.is_int(n_[2]) and IR.ival(n_[2]) == 0 and ci is not None and ci.op == 'call' and ci.callee == 'nsync_time_cmp' \
+                        and list(ci.ops[0:2]) == [v1, v2] and list(ci.ops[2:4]) == dl[:2]
+            rep.instance('C08.R4', 'expiry := another time (handed to %s at %s), on an edge that compared it earlier than abs_deadline: %s' % (h.name, c.where(), ok)); rep.oblig('C08.R4', ok)
+            if not ok:
+                rep.violate(Violation('C08.R4', c.where(), 'the child can be given another expiry than abs_deadline on a path that has not compared that time as earlier than abs_deadline: the expiry is no longer the minimum over the ancestors', site='nsync_note_new/expiry-min'))
+        inherits = inherits or any([v1, v2] != dl[:2] for (v1, v2), _ in pairs)
+    if found and not inherits:
+        rep.oblig('C08.R4', False)
+        rep.violate(Violation('C08.R4', '%s:%d in nsync_note_new' % (IR.rel(fn.file), fn.line), 'the parent\'s earlier expiry is never inherited', site='nsync_note_new/expiry-inherit'))
+    return found
+
 def run(ctx, rep):
     mod = ctx.mod('C')
     eng, runs = objmodel.analyse(ctx)
@@ -249,9 +305,17 @@ def run(ctx, rep):
                any(j.op == 'store' and util.last_field(util.addr_class(mod, mod.func(i.callee), j.ops[1])) == 'nsync_note_s_.expiry_time_valid' for j in mod.func(i.callee).real_insts())]
     direct = [i for i in fn.real_insts() if i.op == 'store' and (util.last_field(util.addr_class(mod, fn, i.ops[1])) or '').startswith('nsync_note_s_.expiry_time')]
     if not setters and not direct:
-        raise AnalysisBroken('C08.R4: the expiry assignment in nsync_note_new was not found')
+        # the expiry may be handed to an allocating helper that stores it (`n = note_alloc (deadline)`), with the minimum computed beforehand:
+        # each value that can reach the helper's (seconds, nanoseconds) parameters is then either the caller's abs_deadline or a time that
+        # the edge it comes in on has compared as earlier than abs_deadline
+        if _check_expiry_via_helper(mod, fn, rep):
+            setters = None
+        else:
+            raise AnalysisBroken('C08.R4: the expiry assignment in nsync_note_new was not found')
+    via_helper = setters is None
+    setters = setters or []
     dl = [a['id'] for a in fn.args if a['ty'] == 'i64']
-    base_ok = False
+    base_ok = via_helper
     for s in setters:
         ops = list(s.ops[1:3])
         if ops == dl[:2]:
@@ -268,7 +332,7 @@ def run(ctx, rep):
     if not base_ok:
         rep.violate(Violation('C08.R4', '%s:%d in nsync_note_new' % (IR.rel(fn.file), fn.line), 'abs_deadline is not stored as the initial expiry', site='nsync_note_new/expiry-init'))
     pt = [s for s in setters if list(s.ops[1:3]) != dl[:2]]
-    if not pt:
+    if not pt and not via_helper:
         rep.oblig('C08.R4', False)
         rep.violate(Violation('C08.R4', '%s:%d in nsync_note_new' % (IR.rel(fn.file), fn.line), 'the parent\'s earlier expiry is never inherited', site='nsync_note_new/expiry-inherit'))
     rep.rule('C08.R8', 'after marking a note the marker waits, on every path, for the child list to drain (children being disconnected elsewhere)')
